@@ -127,7 +127,13 @@ def u_rules(schema: Schema, rep: Report):
         ok, why = chains_to_super(fn, nm, star_args=False, ci=ci)
         rep.check("U-R4", f"{ci.name}.{nm}:chains", ok, f"{ci.name}.{nm} {why}: the shared treatment of vendor tags is switched off for this class" if not ok else "", loc(ci, fn))
         # the value passed up is the (copied) element it worked on
-        rets = [r for r in own_nodes(fn) if isinstance(r, ast.Return)]
+        try:
+            from .flat import flat as _flat
+
+            fn_r = _flat(ci.project, ci.module, fn, ci)  # helpers inlined, method values called directly
+        except Exception:
+            fn_r = fn
+        rets = [r for r in own_nodes(fn_r) if isinstance(r, ast.Return)]
         for r in rets:
             v = r.value
             good = isinstance(v, ast.Call) and isinstance(v.func, ast.Attribute) and v.func.attr == nm and len(v.args) == 1 and not isinstance(v.args[0], ast.Constant)
